@@ -31,18 +31,14 @@ Proof. intros n m [s'|r] Hle H; cbn in *; [lia|exact H]. Qed.
 
 Lemma in_range_nth : forall l i, in_range l i = true -> exists z, nth_size l i = Some z.
 Proof.
-  intros l i H. unfold in_range in H. unfold nth_size.
-  destruct (i <? 0) eqn:Hneg; [lia|].
+  intros l i H. unfold nth_size. rewrite H. unfold in_range in H.
   destruct (nth_error l (Z.to_nat i)) as [z|] eqn:Hn; [eauto|].
   apply nth_error_None in Hn. lia.
 Qed.
 
 Lemma nth_in_range : forall l i z, nth_size l i = Some z -> in_range l i = true.
 Proof.
-  intros l i z H. unfold nth_size in H. unfold in_range.
-  destruct (i <? 0) eqn:Hneg; [discriminate|].
-  assert (Hlt : (Z.to_nat i < length l)%nat) by (apply nth_error_Some; congruence).
-  lia.
+  intros l i z H. unfold nth_size in H. destruct (in_range l i); [reflexivity|discriminate].
 Qed.
 
 Lemma nth_none_range : forall l i, nth_size l i = None -> in_range l i = false.
